@@ -117,7 +117,13 @@ class TypeInfer:
             # single local definition
             defs = []
             for n in ast.walk(fn.node):
-                if isinstance(n, ast.Assign):
+                if isinstance(n, ast.Assign) and getattr(n, "_annotation", None) is not None and len(n.targets) == 1 and isinstance(n.targets[0], ast.Name) and n.targets[0].id == e.id:
+                    # an annotated assignment normalised by sa/flatten.desugar
+                    a = _ann_classes(m, n._annotation, fn)
+                    if a:
+                        return a
+                    defs.append(n.value)
+                elif isinstance(n, ast.Assign):
                     for t in n.targets:
                         if isinstance(t, ast.Name) and t.id == e.id:
                             defs.append(n.value)
